@@ -33,7 +33,7 @@ Template == IF Tmpl = "similar"
                     Cell(3, 1, "code", 0, 1, 0, 1, 0),
                     Cell(4, 3, "code", 2, 3, 1, 2, 0) >>
             ELSE << Cell(1, 1, "code", 0, 1, 0, 1, 0),
-                    Cell(2, 2, "markdown", 0, 0, 0, 0, 1),
+                    Cell(2, 6, "markdown", 0, 0, 0, 0, 1),      \* (text with every line separator Python knows)
                     Cell(3, 3, "code", 0, 2, 1, 2, 0),
                     Cell(4, 5, "markdown", 0, 0, 2, 0, 0) >>
 BaseCells == SubSeq(Template, 1, N)
